@@ -45,8 +45,10 @@ type sys struct {
 	bDump    []string
 	baseDump []string
 
-	seenSig map[string]bool
-	nAt     []int // operations applicable at level i (1-based)
+	seenSig map[string]bool // signatures this worker has described in full
+	seenAt  map[string]bool // (state, signature) pairs this worker has sent
+	fromKey string          // key of the state the current step started from
+	nAt     []int           // operations applicable at level i (1-based)
 }
 
 // NumOps is the number of operations that apply at the next level (a prefix of
@@ -111,6 +113,15 @@ func (s *sys) Reset() error {
 		}
 
 		if err = s.base.WriteFile("/top/secret2", []byte("S2"), 0o600); err != nil {
+			return
+		}
+
+		// a sibling of B whose name has B's name as a prefix (/top/bb against /top/b)
+		if err = s.base.Mkdir("/top/bb", 0o755); err != nil {
+			return
+		}
+
+		if err = s.base.WriteFile("/top/bb/f", []byte("BBF"), 0o600); err != nil {
 			return
 		}
 
@@ -467,8 +478,10 @@ func coarse(kind string) string {
 	return "error"
 }
 
-// reach tells where the wrapper's translation (ToBasePath, then the base's own
-// resolution against its cwd) lands lexically: inside | outside-existing | outside-missing.
+// reach tells where the operand would land in the base if it were joined to B
+// (or to the base's cwd) WITHOUT clamping "..": inside | outside-existing |
+// outside-missing. It is a lexical class of the input for the signature; that
+// a read really answered from outside B is decided by answersFromOutside.
 func reach(baseCwd, p string, baseDump []string) string {
 	bp := p
 
@@ -515,48 +528,38 @@ func panicSite(msg string) string {
 	return "?"
 }
 
-// strClass classifies a returned / embedded path string relative to the
-// arguments of the call (never the raw string: signatures are classes).
-func strClass(s string, args []string) string {
-	s = strings.TrimPrefix(strings.TrimPrefix(strings.TrimPrefix(s, "path="), "old="), "new=")
-
-	for _, a := range args {
-		if s == a {
-			return "arg-as-given"
-		}
+// normPath is the absolute cleaned virtual form of a path string observed on
+// either side: Clean(p) if absolute, else Clean(Join(virtual cwd before the
+// call, p)); ".." clamps at the virtual root.
+func normPath(vcwd, p string) string {
+	if strings.HasPrefix(p, "/") {
+		return path.Clean(p)
 	}
 
-	for _, a := range args {
-		if a != "" && path.Clean(s) == path.Clean(a) {
-			return "arg-cleaned"
-		}
-	}
+	return path.Clean(vcwd + "/" + p)
+}
 
+// basePrefix tells which part of the base path a normalised path starts with:
+// "base-prefixed" (/top/b), "base-parent-prefixed" (/top) or "".
+func basePrefix(n string) string {
 	switch {
-	case s == "":
-		return "empty"
-	case s == basePath || strings.HasPrefix(s, basePath+"/"):
+	case n == basePath || strings.HasPrefix(n, basePath+"/"):
 		return "base-prefixed"
-	case s == "/top" || strings.HasPrefix(s, "/top/"):
+	case n == "/top" || strings.HasPrefix(n, "/top/"):
 		return "base-parent-prefixed"
-	case strings.HasPrefix(s, "/"):
-		return "abs-virtual"
 	}
 
-	return "relative"
+	return ""
 }
 
-// hasTopB: s names the consecutive segments "top", "b" - the base path.
-func hasTopB(s string) bool {
-	return strings.Contains("/"+s+"/", basePath+"/")
-}
+// leakClass: the wrapper's normalised path (already known to differ from the
+// reference's) carries the base prefix where the reference's does not.
+func leakClass(gn, wn string) string {
+	if c := basePrefix(gn); c != "" && basePrefix(wn) != c && !(c == "base-parent-prefixed" && basePrefix(wn) == "base-prefixed") {
+		return c
+	}
 
-// leaks: the wrapper's string names the base path, the reference's does not,
-// and the base path cannot be a legitimate virtual name here (canLeak: no
-// argument of the call and no node of the virtual tree is called top/b - the
-// alphabet contains the segments "top" and "b" on purpose).
-func leaks(got, want string, canLeak bool) bool {
-	return canLeak && hasTopB(got) && !hasTopB(want)
+	return ""
 }
 
 // valClass: coarse class of a non-path value pair.
@@ -598,15 +601,12 @@ func (s *sys) Step(op int) bfs.StepResult {
 		return bfs.StepResult{Key: s.lastKey, Outcome: "not-applicable-at-this-level"}
 	}
 
+	s.fromKey = s.lastKey
+
 	// (MemFile.Chdir stores the name as given to Open: clean before use)
 	vcwd := path.Clean(s.ref.CurDir())
 	bcwd := path.Clean(s.base.CurDir())
 	baseBefore := s.baseDump
-
-	args := []string{o.A}
-	if o.Two {
-		args = append(args, o.B)
-	}
 
 	pc := pathClass(vcwd, o.A)
 	rc := reach(bcwd, o.A, baseBefore)
@@ -696,12 +696,20 @@ func (s *sys) Step(op int) bfs.StepResult {
 		viols = append(viols, bfs.Viol{Sig: sig})
 	}
 
-	canLeak := !hasTopB(o.A) && !(o.Two && hasTopB(o.B))
+	// exists: the normalised virtual path names a node of B (before the call)
+	exists := func(n string) bool {
+		for _, l := range s.bDump {
+			lp := pathOf(l)
+			if lp == "" {
+				lp = "/"
+			}
 
-	for _, l := range s.bDump {
-		if hasTopB(pathOf(l)) {
-			canLeak = false
+			if lp == n {
+				return true
+			}
 		}
+
+		return false
 	}
 
 	rootCase := s.fsName == "OrefaFS" && refRootInvolved(vcwd, o)
@@ -766,7 +774,7 @@ compare:
 			switch {
 			case rootCase:
 				note(call, "ref-root-unaddressable", w.Kind, g.Kind, fmt.Sprintf("reference %s (%s), BasePathFS %s (%s)", w.Kind, w.Msg, g.Kind, g.Msg))
-			case readOnly && g.Kind == "ok" && rc != "inside":
+			case readOnly && g.Kind == "ok" && rc != "inside" && s.answersFromOutside(o, bcwd, i, g):
 				mk(call, "outside-read", oc(w.Kind), g.Kind, fmt.Sprintf("reference %s, BasePathFS ok: val=%q paths=%q", w.Kind, g.Val, g.Paths))
 			default:
 				mk(call, "outcome", oc(w.Kind), oc(g.Kind), fmt.Sprintf("reference %s (%s), BasePathFS %s (%s)", w.Kind, w.Msg, g.Kind, g.Msg))
@@ -785,9 +793,14 @@ compare:
 			why := fmt.Sprintf("reference %q, BasePathFS %q", w.Val, g.Val)
 
 			switch {
+			case nameSpellingOnly(call, vcwd, o.A, w.Val, g.Val):
+				// FileInfo.Name echoes the last element of the name as given
+				// ("." for "a/.") on the reference and of the cleaned virtual
+				// path ("a") on the wrapper: the same node, another spelling
+				notes = append(notes, "spelling-only")
 			case rootCase:
 				note(call, "ref-root-unaddressable", wc, gc, why)
-			case readOnly && rc != "inside":
+			case readOnly && rc != "inside" && s.answersFromOutside(o, bcwd, i, g):
 				mk(call, "outside-read", wc, gc, why)
 			default:
 				mk(call, "value", wc, gc, why)
@@ -795,7 +808,7 @@ compare:
 		}
 
 		// returned path strings
-		if kind, wc, gc, why := comparePaths(w.Paths, g.Paths, args, canLeak, &notes); kind != "" {
+		if kind, wc, gc, why := comparePaths(w.Paths, g.Paths, vcwd, exists, &notes); kind != "" {
 			if kind == "differs" {
 				kind = "value"
 			}
@@ -808,7 +821,7 @@ compare:
 		}
 
 		// paths embedded in the error
-		if kind, wc, gc, why := comparePaths(w.ErrPaths, g.ErrPaths, args, canLeak, &notes); kind != "" {
+		if kind, wc, gc, why := comparePaths(w.ErrPaths, g.ErrPaths, vcwd, exists, &notes); kind != "" {
 			if kind == "differs" {
 				kind = "error-path"
 			}
@@ -862,19 +875,37 @@ compare:
 	// presents (strip B, then clean - FromBasePath) must both be the reference's
 	rawB := s.base.CurDir()
 	newB := path.Clean(rawB)
-	newV := path.Clean(s.ref.CurDir())
+	rawV := s.ref.CurDir()
+	newV := normPath(vcwd, rawV)
+	refCwdRelative := !strings.HasPrefix(rawV, "/")
+
+	if refCwdRelative {
+		// MemFile/OrefaFile.Chdir store the name as given to Open: after
+		// Open("a").Chdir() the reference's cwd is the relative string "a" and
+		// its later answers are meaningless. Nothing to demand; not expanded.
+		note(o.Call, "ref-defect", "relative-cwd", "n/a", fmt.Sprintf("reference cwd became the relative string %q", rawV))
+	}
 	semantic := underB(newB) && path.Clean("/"+strings.TrimPrefix(newB, basePath)) == newV
 	presented := strings.HasPrefix(rawB, basePath) && path.Clean("/"+strings.TrimPrefix(rawB, basePath)) == newV
 	cwdDiverged := !(semantic && presented)
 
 	if cwdDiverged && len(viols) == 0 {
-		mk(o.Call, "cwd", "virtual:"+strClass(newV, args), "base:"+strClass(newB, args), fmt.Sprintf("reference cwd %q, base cwd %q", newV, newB))
+		gc := "presented-differently"
+
+		switch {
+		case !underB(newB):
+			gc = "base-cwd-outside-B"
+		case !semantic:
+			gc = "base-cwd-elsewhere-in-B"
+		}
+
+		mk(o.Call, "cwd", "virtual-cwd", gc, fmt.Sprintf("reference cwd %q, base cwd %q", newV, rawB))
 	}
 
 	key := s.key(baseAfter, refAfter)
 	changed := key != s.lastKey
 	mtimeOnly := !changed && (strings.Join(bAfter, "\n") != strings.Join(s.bDump, "\n"))
-	broken := poisoned || outsideChanged || treeDiff != "" || cwdDiverged
+	broken := poisoned || outsideChanged || treeDiff != "" || cwdDiverged || refCwdRelative
 
 	sr := bfs.StepResult{Key: key, Changed: changed && !broken, Broken: broken, Rebuild: broken || mtimeOnly}
 
@@ -890,21 +921,44 @@ compare:
 }
 
 func (s *sys) finish(o opT, pc string, want, got result, viols []bfs.Viol, diffs, notes []string, sr bfs.StepResult) bfs.StepResult {
-	// The full description travels only with the first instance of a signature
-	// seen by this worker (the reporter keeps one replay per signature).
+	// Reporting unit: one instance per (expanded state, signature) - the same
+	// signature raised by many operations from one state is sent once (the
+	// reporter in the parent is sequential; millions of instances would
+	// throttle the workers). The number of violating transitions is kept
+	// through the outcome table. The full description travels only with the
+	// first instance of a signature seen by this worker.
+	if s.seenSig == nil {
+		s.seenSig = map[string]bool{}
+		s.seenAt = map[string]bool{}
+	}
+
+	violating := false
 	fresh := false
+	kept := viols[:0]
 
 	for _, v := range viols {
-		k := v.Sig["call"] + "|" + v.Sig["path"] + "|" + v.Sig["cwd"] + "|" + v.Sig["reach"] + "|" + v.Sig["kind"] + "|" + v.Sig["want"] + "|" + v.Sig["got"]
-		if !s.seenSig[k] {
-			if s.seenSig == nil {
-				s.seenSig = map[string]bool{}
-			}
+		if !strings.HasPrefix(v.Sig["kind"], "note:") {
+			violating = true
+		}
 
+		k := v.Sig["call"] + "|" + v.Sig["path"] + "|" + v.Sig["cwd"] + "|" + v.Sig["reach"] + "|" + v.Sig["kind"] + "|" + v.Sig["want"] + "|" + v.Sig["got"]
+
+		at := s.fromKey + "|" + k
+		if s.seenAt[at] {
+			continue
+		}
+
+		s.seenAt[at] = true
+
+		if !s.seenSig[k] {
 			s.seenSig[k] = true
 			fresh = true
 		}
+
+		kept = append(kept, v)
 	}
+
+	viols = kept
 
 	if fresh {
 		b, _ := json.Marshal(detail{Want: want, Got: got, Diffs: diffs})
@@ -924,17 +978,103 @@ func (s *sys) finish(o opT, pc string, want, got result, viols []bfs.Viol, diffs
 		}
 	}
 
+	if violating {
+		sr.Outcome += "|V"
+	}
+
 	return sr
 }
 
-// comparePaths compares two lists of path strings modulo Clean. kind: "" (equal
-// or equal modulo spelling), "leak" (the wrapper's string shows the base
-// prefix and the reference's does not), "differs".
-func comparePaths(want, got, args []string, canLeak bool, notes *[]string) (kind, wc, gc, why string) {
+// nameSpellingOnly: two FileInfo renderings ("name rest") differ only in the
+// name, the wrapper's name is the last element of the normalised virtual
+// operand and that operand is not the virtual root (whose name must not be
+// B's).
+func nameSpellingOnly(call, vcwd, arg, want, got string) bool {
+	switch call {
+	case "Stat", "Lstat", "Open.Stat":
+	default:
+		return false
+	}
+
+	wn, wr, _ := strings.Cut(want, " ")
+	gn, gr, _ := strings.Cut(got, " ")
+
+	if wr != gr || wn == gn {
+		return false
+	}
+
+	n := normPath(vcwd, arg)
+
+	return n != "/" && gn == path.Base(n)
+}
+
+// answersFromOutside decides whether a read-only call through the wrapper
+// answered from outside B: the same call made directly on the base with the
+// operand joined to B WITHOUT clamping ".." gives the wrapper's answer.
+func (s *sys) answersFromOutside(o opT, bcwd string, i int, g sub) bool {
+	if o.Two || o.Call == "Getwd" {
+		return false
+	}
+
+	bp := o.A
+
+	switch {
+	case bp == "" || bp == "/":
+		return false
+	case strings.HasPrefix(bp, "/"):
+		bp = basePath + bp
+	default:
+		bp = bcwd + "/" + bp
+	}
+
+	if underB(path.Clean(bp)) {
+		return false
+	}
+
+	probe := run(s.base, opT{Call: o.Call, A: bp})
+
+	return i < len(probe.Subs) && probe.Subs[i].Kind == g.Kind && probe.Subs[i].Val == g.Val
+}
+
+// comparePaths compares two lists of path strings after normalising both
+// sides to the absolute cleaned virtual form (normPath): the property is about
+// which virtual location a string names, not about echoing the argument's
+// spelling. kind: "" (same locations; a different spelling is noted),
+// "leak" (the wrapper names another location and its string carries the base
+// prefix where the reference's does not), "differs" (another location).
+func comparePaths(want, got []string, vcwd string, exists func(string) bool, notes *[]string) (kind, wc, gc, why string) {
+	norm := func(s string) (label, n string) {
+		label, rest, _ := cutLabel(s)
+
+		return label, normPath(vcwd, rest)
+	}
+
 	if len(want) != len(got) {
+		wset := map[string]bool{}
+
+		for _, w := range want {
+			_, n := norm(w)
+			wset[n] = true
+		}
+
 		for _, g := range got {
-			if leaks(g, strings.Join(want, "/,/"), canLeak) {
-				return "leak", "list", "base-prefixed", fmt.Sprintf("reference %q, BasePathFS %q", want, got)
+			_, gn := norm(g)
+			if wset[gn] {
+				continue
+			}
+
+			if c := basePrefix(gn); c != "" && !exists(gn) {
+				has := false
+
+				for n := range wset {
+					if basePrefix(n) == c {
+						has = true
+					}
+				}
+
+				if !has {
+					return "leak", "list", c, fmt.Sprintf("reference %q, BasePathFS %q", want, got)
+				}
 			}
 		}
 
@@ -949,21 +1089,22 @@ func comparePaths(want, got, args []string, canLeak bool, notes *[]string) (kind
 			continue
 		}
 
-		wl, ws, _ := cutLabel(w)
-		gl, gs, _ := cutLabel(g)
+		wl, wn := norm(w)
+		gl, gn := norm(g)
 
-		if wl == gl && ws != "" && gs != "" && path.Clean(ws) == path.Clean(gs) {
+		if wl == gl && wn == gn {
 			spelling = true
 
 			continue
 		}
 
-		k := "differs"
-		if leaks(gs, ws, canLeak) {
-			k = "leak"
+		why = fmt.Sprintf("reference %q (virtual %s), BasePathFS %q (virtual %s)", w, wn, g, gn)
+
+		if c := leakClass(gn, wn); c != "" && !exists(gn) {
+			return "leak", wl + "virtual-path", gl + c, why
 		}
 
-		return k, wl + strClass(ws, args), gl + strClass(gs, args), fmt.Sprintf("reference %q, BasePathFS %q", w, g)
+		return "differs", wl + "virtual-path", gl + "other-virtual-path", why
 	}
 
 	if spelling {
